@@ -122,13 +122,17 @@ WtAfter(w, m, S) == RestrictTo(w, DOMAIN w \ Gone(w, m, S))
 MissAfter(w, m, S) == m \ Gone(w, m, S)
 (* When the specification's Commit does not produce a revision (the state is then unchanged):
      Refused     Commit.commit's own preconditions: conflicts; a selected-file commit of a pending merge; a specific file
-                 named below something that is not a directory in the working tree (it cannot be looked up);
+                 (or the other-tree path of an entry it selects) below something that is not a directory in the working
+                 tree (the lookup fails);
      ~Feasible   the selection does not denote a commit that can satisfy C01: the result would not be a tree (an unselected
                  entry would lose its parent directory or collide with a selected one), a changed selected entry would be
                  recorded at another path than the working tree's (its moved parent directory is not selected), or an
                  unselected pending change would silently disappear (an added entry below a missing directory that is
                  committed as deleted). *)
-BelowNonDir(c) == \E p \in c.sel.paths : \E i \in DOMAIN c.w \ c.m :
+\* the paths a selected-file commit looks up: the minimal specific files, and the other-tree paths of the ids inside them
+LookedUp(c) == {p \in c.sel.paths : ~\E q \in c.sel.paths \ {p} : PrefixOf(q, p)}
+               \cup {p \in UNION {PathsOf(c.b, c.w, i) : i \in UNION {IdsInside(c.b, c.w, q) : q \in c.sel.paths}} : ~InsideAny(c.sel.paths, p)}
+BelowNonDir(c) == \E p \in LookedUp(c) : \E i \in DOMAIN c.w \ c.m :
                       c.w[i].kind # "directory" /\ PathOf(c.w, i) # p /\ PrefixOf(PathOf(c.w, i), p)
 Refused(c) == c.conflicts \/ (c.merge /\ ~(c.sel.all /\ c.excl = {})) \/ BelowNonDir(c)
 FeasibleS(b, w, m, S) ==
